@@ -126,7 +126,10 @@ class FixedMatrix
 
     const FixedArray<T> * getitem(int index) const
     {
-        return new FixedArray<T>(const_cast<T *>(&_ptr[convert_index(index)*_rowStride*_cols*_colStride]),_cols,_colStride);
+        // The row shares this matrix's storage: hand it a reference to that
+        // storage (a copy of this matrix) so that the row, and every alias or
+        // masked reference derived from the row, keeps the storage alive.
+        return new FixedArray<T>(const_cast<T *>(&_ptr[convert_index(index)*_rowStride*_cols*_colStride]),_cols,_colStride,boost::any(*this));
     }
 
     FixedMatrix  getslice(PyObject *index) const
